@@ -35,6 +35,12 @@ for f in known['fixed']: out.append('* ' + f)
 out.append('\n### 9.2 Known findings (genuine defects recorded, not repaired)\n')
 for f in known['findings']: out.append('* **%s `%s`** — %s' % (f['property'], f['id'], f['description']))
 out.append('\n### 10.1 Seeded changes (written by independent sub-agents that saw only the property text) and the checks that catch them\n')
+metas = [json.load(open(m)) for m in sorted(glob.glob(os.path.join(ROOT, 'seeded', '*', 'meta.json')))]
+def cnt(pred): return sum(1 for d in metas if pred(d.get('verdict', '')))
+out.append('%d seeded changes are kept (each confirmed: the 70 existing tests pass with it, its demonstration fails with it and passes without): '
+           '%d caught by the check of their property as it stood, %d caught by the check of a neighbouring property that decides the same mechanism, '
+           '%d caught after the check was strengthened (remark column), %d not caught.\n' % (
+           len(metas), cnt(lambda v: v == 'caught'), cnt(lambda v: v.startswith('caught by')), cnt(lambda v: v.startswith('caught after')), cnt(lambda v: v.startswith('not'))))
 out.append('| seed | property | what it needs to manifest | caught by | verdict | remark |\n|---|---|---|---|---|---|')
 for m in sorted(glob.glob(os.path.join(ROOT, 'seeded', '*', 'meta.json'))):
     d = json.load(open(m))
